@@ -15,7 +15,7 @@
 Require Import ZArith QArith List.
 Require Import BFL.Ops BFL.ListOps BFL.Density BFL.C01_Model BFL.C02_Model BFL.C03_Model BFL.C04_Model.
 From mathcomp Require Import all_ssreflect all_algebra.
-Require Import BFL.MxOps BFL.LinAlg BFL.C03_Proofs BFL.C04_Proofs.
+Require Import BFL.MxOps BFL.LinAlg BFL.C03_Proofs BFL.C04_Proofs BFL.C04_Seq.
 Require Import BFL.ListOpsCorrect BFL.C02_Transport BFL.C04_Transport.
 Import GRing.Theory Num.Theory.
 Local Open Scope ring_scope.
@@ -182,6 +182,33 @@ Theorem C04_unusable_measurement_is_identity (O : MatOps) n m ms (y : M O m 1) g
   [/\ res.1.1 = pred, res.2 = [::] & ukf_likelihood res.1.2 = None].
 Proof. exact: ukf_correct_finish_unusable. Qed.
 
+(* several calls on ONE UKFCorrection object, the model (H, R, y, sizes of the belief, even linearity)
+   changing freely between them: what a call that is not skipped hands back (output object,
+   per-component outcomes) and what getLikelihood reports afterwards do not depend on the state
+   st / st' an earlier call left in the object; with a measurement, not even the state it keeps does.
+   Every arithmetic instance, every model.  (UKFPrediction keeps only its weights: the prediction
+   models above have no state argument.) *)
+Theorem C04_correct_history_independent (O : MatOps) n q m (Ld Lm : layout) a b k (y : option (M O m 1)) f f' g
+        (R : M O m m) (Rv : M O q q) (pred old : mixture O n n) (st st' : ukf_state O m) :
+  let ra := ukf_correct_additive Ld Lm a b k false y f g R pred old in
+  let rg := ukf_correct_generic Ld Lm a b k false y f' g Rv pred old in
+  [/\ (ra st).1.1 = (ra st').1.1, (ra st).2 = (ra st').2 &
+      ukf_likelihood (ra st).1.2 = ukf_likelihood (ra st').1.2] /\
+  [/\ (rg st).1.1 = (rg st').1.1, (rg st).2 = (rg st').2 &
+      ukf_likelihood (rg st).1.2 = ukf_likelihood (rg st').1.2] /\
+  (y <> None -> ra st = ra st' /\ rg st = rg st').
+Proof. exact: ukf_correct_history_independent. Qed.
+
+(* ... hence a sequence of non-skipped calls on one object (run_calls threads the kept state from call
+   to call and records output object, outcomes and likelihood of each) returns, call by call, what a
+   fresh object returns for that call *)
+Theorem C04_unskipped_calls_are_fresh_calls (O : MatOps) n m (calls : list (ccall O n m)) (st : ukf_state O m) :
+  (forall c, In c calls ->
+     (exists Ld Lm a b k y f g R pred old, c = @additive_call O n m Ld Lm a b k y f g R pred old) \/
+     (exists q Ld Lm a b k y f g Rv pred old, c = @generic_call O n q m Ld Lm a b k y f g Rv pred old)) ->
+  run_calls calls st = List.map (@fresh_call O n m) calls.
+Proof. exact: run_unskipped_calls_fresh. Qed.
+
 (* transport: the Kalman prediction used as the spec side of the prediction half, executed at the
    LIST instance, represents the MathComp one on well-formed inputs (any realFieldType) *)
 Theorem C04_transport_kf_predict (F : realFieldType) (tr : Transc F) sq eg (n : nat)
@@ -229,6 +256,27 @@ Example C04_concrete_Q :
   end = true.
 Proof. vm_compute. reflexivity. Qed.
 
+(* ... and two calls on one object, the measurement model changing in between (H, R, y): each call
+   returns the Kalman correction for the model it saw (second call: y = [2 -1] x + v, R = 1, y = 1) *)
+Example C04_concrete_sequence_Q :
+  let L := mkLayout 2 0 false 0 in
+  let P := [:: [:: 4#1; 2#1]; [:: 2#1; 2#1]]%Q in
+  let x := [:: [:: 1#1]; [:: -1#1]]%Q in
+  let H1 := [:: [:: 1#1; 2#1]]%Q in let R1 := [:: [:: 1#2]]%Q in let y1 := [:: [:: 3#1]]%Q in
+  let H2 := [:: [:: 2#1; -1#1]]%Q in let R2 := [:: [:: 1#1]]%Q in let y2 := [:: [:: 1#1]]%Q in
+  let pred := @mkMix QM4 2 2 L [:: (x, P)] [:: 1#1]%Q in
+  let old := @mkMix QM4 2 2 L [:: (y1 ++ y1, P)] [:: 1#8]%Q in
+  let call Hm Rm ym := @additive_call QM4 2 1 (mkLayout 2 0 false 1) (mkLayout 1 0 false 0) (1#1)%Q (2#1)%Q (2#1)%Q
+                         (Some ym) (fun X => Some (@linear_cols QM4 2 1 Hm X)) (@lin_innovation_cols QM4 1) Rm pred old in
+  let kf Hm Rm ym := ko_comp (@kf_correct_one QM4 2 1 Hm Rm ym (@mkGcomp QM4 2 x P)) in
+  match List.map (fun r => mx_comps r.1.1) (run_calls [:: call H1 R1 y1; call H2 R2 y2] (@mkUkfState QM4 1 [::] [::])) with
+  | [:: [:: (x1, P1)]; [:: (x2, P2)]] =>
+      qmx_eqb x1 (gmean (kf H1 R1 y1)) && qmx_eqb P1 (gcov (kf H1 R1 y1)) &&
+      qmx_eqb x2 (gmean (kf H2 R2 y2)) && qmx_eqb P2 (gcov (kf H2 R2 y2)) && ~~ qmx_eqb x1 x2
+  | _ => false
+  end = true.
+Proof. vm_compute. reflexivity. Qed.
+
 Print Assumptions C04_predict_additive.
 Print Assumptions C04_predict_augmented.
 Print Assumptions C04_kf_predict_is_C02.
@@ -242,4 +290,6 @@ Print Assumptions C04_innovation_cov_invertible.
 Print Assumptions C04_skip_is_identity.
 Print Assumptions C04_no_measurement_is_identity.
 Print Assumptions C04_unusable_measurement_is_identity.
+Print Assumptions C04_correct_history_independent.
+Print Assumptions C04_unskipped_calls_are_fresh_calls.
 Print Assumptions C04_transport_kf_predict.
